@@ -39,6 +39,9 @@ type c02Scn struct {
 	// LongSecret: the caller's password (and KG) are 24 bytes; "wrong" then means
 	// the BMC holds only their first 20 bytes
 	LongSecret bool `json:"long_secret,omitempty"`
+	// Near selects a (caller secret, BMC's different secret) pair that is a near
+	// miss: see c02Near
+	Near int `json:"near,omitempty"`
 	Username string    `json:"username"`
 }
 
@@ -212,6 +215,47 @@ type c02Obs struct {
 	CtxCut   bool
 }
 
+// c02Near returns the caller's password and KG and the different values a
+// "wrong" BMC holds, for near-miss kind n >= 1. HMAC pads keys with zero bytes,
+// so secrets differing only in trailing zero bytes are the same key; none of
+// these pairs is of that sort.
+func c02Near(n int) (pw, bmcPw, kg, bmcKG []byte) {
+	kg = pattern(20, 0x30, 1)
+	switch n {
+	case 1: // embedded NUL: the BMC holds the part before it
+		pw, bmcPw = []byte("ab\x00cd"), []byte("ab")
+		kg[7] = 0
+		bmcKG = append([]byte{}, kg[:7]...)
+	case 2: // leading NUL: the BMC holds the empty secret
+		pw, bmcPw = []byte("\x00secret"), []byte{}
+		kg[0] = 0
+		bmcKG = make([]byte, 20)
+	case 3: // the BMC's secret is one byte longer
+		pw, bmcPw = []byte("s3cret-pass"), []byte("s3cret-pass1")
+		bmcKG = append(append([]byte{}, kg[:19]...), kg[19]^1)
+	case 4: // white space at the end
+		pw, bmcPw = []byte("s3cret-pass "), []byte("s3cret-pass")
+		kg[19] = ' '
+		bmcKG = append(append([]byte{}, kg[:19]...), 0)
+	case 5: // top bit
+		pw, bmcPw = []byte("s3cret-pas\xf3"), []byte("s3cret-pass")
+		kg[3] |= 0x80
+		bmcKG = append([]byte{}, kg...)
+		bmcKG[3] &= 0x7f
+	case 6: // empty against one byte
+		pw, bmcPw = []byte{}, []byte{0x01}
+		bmcKG = append([]byte{}, kg...)
+		bmcKG[19] ^= 0x80
+	case 7: // same bytes in another order
+		pw, bmcPw = []byte("s3cret-pass"), []byte("3scret-pass")
+		bmcKG = append([]byte{}, kg...)
+		bmcKG[0], bmcKG[1] = bmcKG[1], bmcKG[0]
+	}
+	return
+}
+
+const c02Nears = 7
+
 func c02Exec(scn c02Scn, ch *env.Chooser) *c02Obs {
 	cfg := defaultConfig()
 	pw := []byte("s3cret-pass")
@@ -238,6 +282,19 @@ func c02Exec(scn c02Scn, ch *env.Chooser) *c02Obs {
 		cfg.KG = pattern(20, 0x31, 1)
 		if scn.LongSecret {
 			cfg.KG = kg[:20]
+		}
+	}
+	if scn.Near > 0 {
+		npw, nbpw, nkg, nbkg := c02Near(scn.Near)
+		pw, cfg.Password = npw, npw
+		if scn.UseKG {
+			kg, cfg.KG = nkg, nkg
+		}
+		if scn.WrongPw {
+			cfg.Password = nbpw
+		}
+		if scn.WrongKG {
+			cfg.KG = nbkg
 		}
 	}
 	w := newWorld(cfg, ch, nil)
@@ -386,6 +443,7 @@ func runC02(r *rep.R) {
 	var idx int64
 	bound := 1
 	for _, s := range suites {
+		var variants []c02Scn
 		for _, variant := range []c02Scn{
 			{Suite: s, Username: "admin"},
 			{Suite: s, Username: "", UseKG: true},
@@ -396,6 +454,15 @@ func runC02(r *rep.R) {
 			{Suite: s, Username: "admin", LongSecret: true, WrongPw: true},
 			{Suite: s, Username: "admin", UseKG: true, LongSecret: true, WrongKG: true},
 		} {
+			variants = append(variants, variant)
+		}
+		for n := 1; n <= c02Nears; n++ {
+			variants = append(variants,
+				c02Scn{Suite: s, Username: "admin", UseKG: true, Near: n},
+				c02Scn{Suite: s, Username: "admin", Near: n, WrongPw: true},
+				c02Scn{Suite: s, Username: "admin", UseKG: true, Near: n, WrongKG: true})
+		}
+		for _, variant := range variants {
 			scn := variant
 			if scn.WrongPw || scn.WrongKG || scn.UseKG {
 				scn.Reduced = true // full catalogue only from the plain correct transcript
@@ -422,7 +489,7 @@ func runC02(r *rep.R) {
 }
 
 func c02Explore(r *rep.R, scn c02Scn, bound int, idx *int64) {
-	tag := fmt.Sprintf("c02/%v/pw%v/kg%v/%v/red%v/%v/%v/u%d", scn.Suite, scn.WrongPw, scn.WrongKG, scn.UseKG, scn.Reduced, scn.SecondReduced, scn.LongSecret, len(scn.Username))
+	tag := fmt.Sprintf("c02/%v/pw%v/kg%v/%v/red%v/%v/%v/u%d/near%d", scn.Suite, scn.WrongPw, scn.WrongKG, scn.UseKG, scn.Reduced, scn.SecondReduced, scn.LongSecret, len(scn.Username), scn.Near)
 	e := &env.Explorer{R: r, Bound: bound, Scenario: tag, Idx: idx,
 		Run: func(ch *env.Chooser) any { return c02Exec(scn, ch) },
 	}
